@@ -398,7 +398,7 @@ def run_inproc(ctx, case):
                 return
             ok = code == 0
             if not ok and not req["nonfatal"]:
-                ctx.violation(f"fatal-failure-not-raised:{h}", case,
+                ctx.violation("fatal-failure-not-raised", case,
                               f"request #{idx} is fatal and failed ({fe.out[0]!r}) but no IpcCommandError was raised: "
                               f"the build would go on")
             judge(ctx, case, idx, w, status, entries, external, flt, ok, code, msg, h in failed_helpers)
@@ -923,11 +923,11 @@ def plan(tier, seed):
             tasks.append({"task": "streams", "layer": "bash", "examples": 8, "salt": 20 + i})
     else:
         for i in range(8):
-            tasks.append({"task": "streams", "layer": "inproc", "examples": 1500, "salt": i})
+            tasks.append({"task": "streams", "layer": "inproc", "examples": 400, "salt": i})
         for i in range(4):
-            tasks.append({"task": "streams", "layer": "phase", "examples": 1500, "salt": 10 + i})
+            tasks.append({"task": "streams", "layer": "phase", "examples": 300, "salt": 10 + i})
         for i in range(8):
-            tasks.append({"task": "streams", "layer": "bash", "examples": 250, "salt": 20 + i})
+            tasks.append({"task": "streams", "layer": "bash", "examples": 60, "salt": 20 + i})
     return tasks
 
 
